@@ -74,28 +74,31 @@ def strip_comments(src):
     return "".join(out)
 
 
-def lean_files_for(prop):
-    """Source files whose content is part of the proof of `prop` (for the forbidden-token grep)."""
+def lean_files_for(prop, prefixes=None):
+    """Source files whose content is part of the proof of `prop` (for the forbidden-token grep):
+    shared Base files plus every file prefixed by one of the property's ids."""
+    prefixes = list(prefixes or [prop])
     pm = os.path.join(LEAN_DIR, "PsutilModel")
     files = []
-    for sub in ("Base",):
-        d = os.path.join(pm, sub)
-        for f in sorted(os.listdir(d)):
-            if f.endswith(".lean"):
-                files.append(os.path.join(d, f))
-    for sub in ("Model", "Spec", "Proofs", "Props", "Generated", "World"):
+    for sub in ("Base", "Model", "Spec", "Proofs", "Props", "Generated", "World"):
         d = os.path.join(pm, sub)
         if not os.path.isdir(d):
             continue
         for f in sorted(os.listdir(d)):
-            if f.endswith(".lean") and (f.startswith(prop) or sub == "World"):
-                files.append(os.path.join(d, f))
+            if not f.endswith(".lean"):
+                continue
+            owned = re.match(r"^C\d\d", f)
+            if owned and not any(f.startswith(p) for p in prefixes):
+                continue
+            if not owned and sub not in ("Base", "World"):
+                continue
+            files.append(os.path.join(d, f))
     return files
 
 
-def grep_forbidden(prop):
+def grep_forbidden(prop, prefixes=None):
     hits = []
-    for p in lean_files_for(prop):
+    for p in lean_files_for(prop, prefixes):
         with open(p, encoding="utf-8") as f:
             code = strip_comments(f.read())
         for m in FORBIDDEN.finditer(code):
